@@ -25,17 +25,19 @@ LEVEL_TEXT = ("Proof (Coq, reals) about the executable Gallina model of helpers.
               "add_knot_list) and operations.refine_knotvector, which describes the code WITH the repair fixes/C05-refinement-span-count.diff. "
               "General [G]: density d puts exactly the points l_i + j/2^d (l_{i+1}-l_i) between consecutive listed knots (every interval bisected "
               "d times) and the list has (n-1) 2^d + 1 entries; directions with density 0 keep knot vector and size, degrees never change, nothing "
-              "selected = object unchanged (curves, surfaces, volumes, every parameter list); density 0 is rejected. Bounded [B], bound = ONE knot "
-              "to insert, all degrees, all sorted knot vectors: A5.4 returns the knot vector with x in sorted position and Boehm's control points "
-              "and leaves every curve point unchanged. NOT proved in Coq, tied to the code by the correspondence check and the exact oracle only: "
-              "shape preservation and the sorted-merge form of the refined knot vector for more than one inserted knot (the normal case), the "
-              "multiplicity-equals-degree statement, the surface/volume gather-scatter of refine_knotvector.")
+              "selected = object unchanged (curves, surfaces, volumes, every parameter list); density 0 is rejected.  Round 2 (Proofs/Refine*.v), all "
+              "[G]: for ANY sorted list X of new knots inside the half-open domain (any length, any multiplicities as long as no knot ends above "
+              "the degree, tolerance separating distinct knots) A5.4 returns the sorted merge of U and X and control points defining exactly the "
+              "same curve (loop invariant: each outer iteration is one Boehm insertion at the true span); the default list is, for each value of the "
+              "d-fold bisection, degree minus current multiplicity copies, so afterwards every interior knot has multiplicity exactly the degree; "
+              "knot_refinement / refine_knotvector are correct for curves, surfaces and volumes and any subset of directions (fibre-wise lift). The "
+              "former one-knot theorems remain.  Outside the theorems: degree 0, helper-built lists on knot vectors not clamped at the end.")
 LEVEL_NOTE = ("Trusted: Coq 8.16.1 kernel incl. vm_compute; standard-library axioms of Reals as printed by Print Assumptions; the hand-written "
               "model's fidelity is sampled by the correspondence check on every run (helper with default / explicit / additional knot lists, points "
               "and rows, density 1..3; refine_knotvector on curve/surface/volume x rational x all direction subsets; 1e-9 tolerance); the exact "
               "Fraction oracle checks the property statement (same points on a grid with all old and new knots, d-fold bisection, interior "
               "multiplicities = degree, untouched directions) on every case; floating-point rounding is modelled as exact.")
-TECHNIQUE = ("Coq proof (loop invariants of A5.4 over functional arrays for one inserted knot, Boehm's identity; induction on the density) on a "
+TECHNIQUE = ("Coq proof (loop invariant of A5.4 over functional arrays: every outer iteration is a Boehm insertion; Boehm's identity; induction on the density; Paramcoq fibre lifts) on a "
              "Gallina model executed by vm_compute against geomdl outputs + exact Fraction before/after oracle")
 
 
